@@ -174,9 +174,15 @@ static int upipe_setflowdef_set_flow_def(struct upipe *upipe,
 
     struct upipe_setflowdef *upipe_setflowdef =
         upipe_setflowdef_from_upipe(upipe);
-    uref_free(upipe_setflowdef->flow_def_input);
+    struct uref *flow_def_input = upipe_setflowdef->flow_def_input;
     upipe_setflowdef->flow_def_input = flow_def_dup;
-    upipe_setflowdef_build_flow_def(upipe);
+    int err = upipe_setflowdef_build_flow_def(upipe);
+    if (unlikely(!ubase_check(err))) {
+        upipe_setflowdef->flow_def_input = flow_def_input;
+        uref_free(flow_def_dup);
+        return err;
+    }
+    uref_free(flow_def_input);
     return UBASE_ERR_NONE;
 }
 
